@@ -673,9 +673,36 @@ fn run_rts(r: &mut Report, case: &str, payload: &[u8], script: &[Step], menu: &[
             }
         }
         Ok(Err(e)) => {
-            if !delivered_utf8 {
-                // the data is not UTF-8: an error is due (whichever, if the reader failed too) and the string stays
-                r.outcome(if rd.saw_fail { "read_to_string:invalid-utf8-and-io-error" } else { "read_to_string:invalid-utf8" });
+            if rd.saw_fail {
+                // "surface any other error": the reader's own error, also when the bytes read so far end inside a
+                // character (another error in its place means the reader's was not surfaced); the string stays
+                if e.matches_errno(Errno::EIO) {
+                    r.outcome(if delivered_utf8 { "read_to_string:error-surfaced" } else { "read_to_string:error-surfaced-over-invalid-utf8" });
+                } else {
+                    r.outcome("read_to_string:wrong-error");
+                    viol(
+                        r,
+                        OP,
+                        "wrong-error",
+                        format!("reader failed with EIO after delivering {} ({}UTF-8), helper returned {e:?}", brief(delivered), if delivered_utf8 { "" } else { "not " }),
+                        case,
+                    );
+                }
+                if !delivered_utf8 && !unchanged {
+                    viol(
+                        r,
+                        OP,
+                        "string-modified-on-invalid-utf8",
+                        format!("delivered bytes {} are not UTF-8, result {e:?}, string changed from {:?} to bytes {}", brief(delivered), old, brief(&raw)),
+                        case,
+                    );
+                }
+            } else if e.matches_errno(Errno::EINTR) {
+                r.outcome("read_to_string:eintr-surfaced");
+                viol(r, OP, "eintr-surfaced", format!("returned {e:?} instead of retrying; {}", rd_summary(&rd)), case);
+            } else if !delivered_utf8 {
+                // the data is not UTF-8: an error is due and the string stays
+                r.outcome("read_to_string:invalid-utf8");
                 if !unchanged {
                     viol(
                         r,
@@ -685,16 +712,6 @@ fn run_rts(r: &mut Report, case: &str, payload: &[u8], script: &[Step], menu: &[
                         case,
                     );
                 }
-            } else if rd.saw_fail {
-                if e.matches_errno(Errno::EIO) {
-                    r.outcome("read_to_string:error-surfaced");
-                } else {
-                    r.outcome("read_to_string:wrong-error");
-                    viol(r, OP, "wrong-error", format!("reader failed with EIO, helper returned {e:?}"), case);
-                }
-            } else if e.matches_errno(Errno::EINTR) {
-                r.outcome("read_to_string:eintr-surfaced");
-                viol(r, OP, "eintr-surfaced", format!("returned {e:?} instead of retrying; {}", rd_summary(&rd)), case);
             } else {
                 r.outcome("read_to_string:spurious-error");
                 viol(r, OP, "spurious-error", format!("returned {e:?}; delivered bytes {} are UTF-8 and the reader reported no error", brief(delivered)), case);
@@ -1008,15 +1025,18 @@ fn run_write(
         }
         Ok(Err(e)) => {
             // the writer's own error; EINTR may be retried or returned (the statement leaves it open)
-            if e.matches_errno(Errno::EIO) && w.saw_fail {
-                r.outcome(&oc("error-surfaced"));
+            if w.saw_fail {
+                // the writer failed (and stays failed): "return the writer's error" means that one
+                if e.matches_errno(Errno::EIO) {
+                    r.outcome(&oc("error-surfaced"));
+                } else {
+                    r.outcome(&oc("wrong-error"));
+                    viol(r, op, "wrong-error", format!("writer failed with EIO, helper returned {e:?}"), case);
+                }
             } else if e.matches_errno(Errno::EINTR) && w.saw_eintr {
                 r.outcome(&oc("eintr-returned"));
             } else if !matches!(e, Error::Os { .. }) && w.saw_zero {
                 r.outcome(&oc("write-zero-error"));
-            } else if w.saw_fail {
-                r.outcome(&oc("wrong-error"));
-                viol(r, op, "wrong-error", format!("writer failed with EIO, helper returned {e:?}"), case);
             } else {
                 r.outcome(&oc("spurious-error"));
                 viol(
@@ -1124,7 +1144,29 @@ fn menu_scripts(max_len: usize) -> Vec<Vec<Step>> {
     v
 }
 
+/// alphabet of the read_to_string "pieces" scripts: data pieces that split 2- and 3-byte characters, and control answers
+#[derive(Clone, Copy)]
+enum PSym {
+    Data(&'static [u8]),
+    Ctl(Step),
+}
+const PSYMS: [PSym; 10] = [
+    PSym::Data(b"ab"),
+    PSym::Data(&[0xC3]),       // first byte of U+00E9
+    PSym::Data(&[0xA9]),       // its second byte; a lone continuation byte anywhere else
+    PSym::Data(&[0xE2]),       // U+20AC split 1+2
+    PSym::Data(&[0x82, 0xAC]), //
+    PSym::Data(&[0xE2, 0x82]), // U+20AC split 2+1
+    PSym::Data(&[0xAC]),       //
+    PSym::Ctl(Step::Eintr),
+    PSym::Ctl(Step::Fail),
+    PSym::Ctl(Step::Zero),
+];
+const N_PSYM: usize = PSYMS.len();
+
 struct Bounds {
+    /// read_to_string scripts over the character-splitting piece alphabet
+    l_pieces: usize,
     l_read: usize,
     l_rts: usize,
     l_rts_invalid: usize,
@@ -1144,9 +1186,9 @@ const WA_LENS: [usize; 5] = [0, 1, 2, 5, 33];
 
 fn c15(args: &Args) -> Report {
     let b = if args.thorough {
-        Bounds { l_read: 7, l_rts: 5, l_rts_invalid: 3, l_write: 9, cuts_long: 3, lad_read: 5, lad_rts: 4, lad_pieces: 4, lad_write: 3 }
+        Bounds { l_pieces: 5, l_read: 7, l_rts: 5, l_rts_invalid: 3, l_write: 9, cuts_long: 3, lad_read: 5, lad_rts: 4, lad_pieces: 4, lad_write: 3 }
     } else {
-        Bounds { l_read: 6, l_rts: 4, l_rts_invalid: 2, l_write: 7, cuts_long: 2, lad_read: 4, lad_rts: 3, lad_pieces: 3, lad_write: 3 }
+        Bounds { l_pieces: 4, l_read: 6, l_rts: 4, l_rts_invalid: 2, l_write: 7, cuts_long: 2, lad_read: 4, lad_rts: 3, lad_pieces: 3, lad_write: 3 }
     };
     let mut items: Vec<Isolated> = Vec::new();
 
@@ -1299,6 +1341,47 @@ fn c15(args: &Args) -> Report {
                 }));
             }
         }
+    }
+
+    // (e) scripts over an alphabet of data pieces that split characters: each entry delivers its piece (the payload is
+    //     the concatenation of the pieces) or is EINTR / EIO / Ok(0).  A failure may thus come in the middle of a character.
+    for first in std::iter::once(N_PSYM).chain(0..N_PSYM) {
+        let l = b.l_pieces;
+        items.push(isolated(format!("read_to_string-pieces-f{first}"), move || {
+            let mut r = Report::new();
+            let mut cs = String::new();
+            let mut payload: Vec<u8> = Vec::new();
+            let mut steps: Vec<Step> = Vec::new();
+            for_each_seq(N_PSYM, l, |idx| {
+                // `first == N_PSYM`: the scripts shorter than `l` (simplest first); else full length by first symbol
+                if (first == N_PSYM) != (idx.len() < l) || (idx.len() == l && idx[0] != first) {
+                    return;
+                }
+                payload.clear();
+                steps.clear();
+                for &i in idx {
+                    match PSYMS[i] {
+                        PSym::Data(d) => {
+                            payload.extend_from_slice(d);
+                            steps.push(Step::Deliver(d.len()));
+                        }
+                        PSym::Ctl(st) => steps.push(st),
+                    }
+                }
+                for (old, spare) in rts_states(payload.len()) {
+                    let prefix = case_prefix(json!({"op":"read_to_string","payload":show_bytes(&payload),"old":old,"spare":spare}));
+                    let ident = hash_of(&(&payload, old, spare));
+                    case_string(&mut cs, &prefix, &steps, false);
+                    set_case(&cs);
+                    run_rts(&mut r, &cs, &payload, &steps, &[1, 2], old, spare, ident, false, false);
+                    clear_case();
+                    if idx == [0, 1, 8] && spare == 100 && old.is_empty() {
+                        r.sample(case_json(&cs));
+                    }
+                }
+            });
+            r
+        }));
     }
 
     // ---- write_all / write_fmt: all writer scripts (sticky entries only in last position)
@@ -1540,6 +1623,7 @@ fn c15(args: &Args) -> Report {
          read_to_string: scripts of length <= {ls} x 8 multi-byte texts (0..70 bytes, characters straddling bytes 32 and 64) x old in {{\"\",\"ab\u{20ac}\"}} x spare capacity {{0,exact,100}}; \
          the 10-byte text 'a\u{e9}\u{20ac}\u{1f600}' delivered in every composition into pieces and its 40-byte repetition with every set of <= {cl} cuts, with and without EINTR between pieces; \
          0xFF substituted at every position and truncation at every byte of the 10/33/40-byte texts x (every single cut + scripts of length <= {li}). \
+         every script of length <= {lpc} over the piece alphabet {{\"ab\", C3, A9, E2, 82 AC, E2 82, AC, EINTR, EIO, Ok(0)}} (each data entry delivers its piece; U+00E9 split 1+1, U+20AC split 1+2 and 2+1, A9/AC alone are lone continuation bytes), so that EIO also arrives inside a character. \
          write_all (payload lengths {WA_LENS:?}) and write_fmt ({nf} format strings producing 0..{mf} separate write_all fragments, arguments opaque to the compiler): every script of length <= {lw} over {{A1,A2,A4,AALL,EINTR,Ok(0)*,EIO*}} (* sticky, last position only). \
          SIZE LADDER (same oracle): read_to_end with initial len {{0,5}} x spare capacity {LADDER:?} x payload lengths (the same + {LADDER_EXTRA_LENS:?}) x every script of length <= {ladr} over \
          chunk sizes {{D1,D10,D1000,D4096,DHALF (half the request),DALL (= exactly the request)}} and EINTR, the reader then repeating the last scripted chunk size until the data ends; \
@@ -1557,6 +1641,7 @@ fn c15(args: &Args) -> Report {
         cl = b.cuts_long,
         li = b.l_rts_invalid,
         lw = b.l_write,
+        lpc = b.l_pieces,
         ladr = b.lad_read,
         lads = b.lad_rts,
         ladp = b.lad_pieces,
@@ -1567,12 +1652,13 @@ fn c15(args: &Args) -> Report {
     r.bound("max_script_len_read", b.l_read);
     r.bound("max_script_len_read_to_string", b.l_rts);
     r.bound("max_script_len_write", b.l_write);
+    r.bound("max_script_len_read_to_string_pieces", b.l_pieces);
     r.bound("reader_menu", "D1 D2 D31 D32 D33 DALL Z(Ok(0)) I(EINTR) F(EIO)");
     r.bound("writer_menu", "A1 A2 A4 AALL I(EINTR) Z(Ok(0), sticky) F(EIO, sticky)");
     r.bound("shards", n_items);
     r.note("not covered: the print!/println!/eprint! path (tiny-std/src/unix/print.rs) writes through a raw syscall; it needs the syscall seam (S2) and is left to that harness");
     r.note("EINTR from a writer: write_all retries it (io.rs Write::write_all); the oracle accepts retry or returning EINTR, since the statement only promises retry for readers");
-    r.note("on an I/O error the statement fixes only the returned error; buffer contents after an error are not checked, except that a String must stay valid UTF-8 and is unchanged when the delivered bytes are not UTF-8");
+    r.note("on an I/O error the statement fixes the returned error: whenever the reader/writer returned EIO and the helper returns Err, it must carry errno EIO (also when a String's new bytes are not UTF-8 at that point); buffer contents after an error are not checked, except that a String must stay valid UTF-8 and is unchanged when the delivered bytes are not UTF-8");
     r
 }
 
